@@ -193,10 +193,17 @@ def check_items(prop, items, seed=0, do_search=True, per=6):
                 it.detail["failing_input"] = env
                 it.detail["failing_input_by_name"] = {d[1]: env[i] for i, d in enumerate(it.decls)
                                                       if d[0] == "in" and i < len(env)}
-                it.detail["observed_vs_expected"] = [
-                    {"output": o[0], "signal": o[1], "observed": p[0], "expected": p[1]}
-                    for o, p in zip(it.meta["outputs"], pairs)
-                ]
+                # order of conc_progb: scalar outputs and entity conditions, then every bundle output on every
+                # signal of the universe (ascending signal id)
+                outs_ = it.meta["outputs"]
+                labels = [(o[0], o[1]) for o in outs_ if o[1] != "<bundle>"]
+                univ = [s for s, _ in sorted(it.meta["signals"].items(), key=lambda kv: kv[1])]
+                for o in outs_:
+                    if o[1] == "<bundle>":
+                        labels += [(o[0], s) for s in univ]
+                rows = [{"output": o[0], "signal": o[1], "observed": p[0], "expected": p[1]} for o, p in zip(labels, pairs)]
+                it.detail["observed_vs_expected"] = ([r_ for r_ in rows if r_["observed"] != r_["expected"]]
+                                                     + [r_ for r_ in rows if r_["observed"] == r_["expected"]])[:24]
             else:
                 it.detail["failing_input"] = None
                 it.detail["debug"] = S.debug_case(it.id, defs_by[it.id], n)[:4000]
@@ -223,7 +230,7 @@ def concrete_mismatch(item, env_values, prop="W"):
                                 S.EXTRA, tag=f"w{item.id}")
     import re
 
-    pairs = re.findall(r"\((-?\d+),\s*(-?\d+)\)", (outs[0] or "").replace("%Z", "")) if outs and outs[0] else []
+    pairs = re.findall(r"\(\s*(-?\d+)\s*,\s*(-?\d+)\s*\)", (outs[0] or "").replace("%Z", "")) if outs and outs[0] else []
     return [(o[0], int(a), int(b)) for o, (a, b) in zip(meta["outputs"], pairs)]
 
 
